@@ -86,7 +86,7 @@ def run_case(case, keep_world=False, monitors=None):
 
         def main_factory(world, p):
             return fam.party_main(world, p, prog, case) if hasattr(fam, 'party_main') \
-                else progmod.run_real(p.rt, prog, fam)
+                else progmod.run_real(p.rt, prog, fam, p)
 
         w.launch(main_factory)
         outcome = w.run()
@@ -112,6 +112,12 @@ def run_case(case, keep_world=False, monitors=None):
     except Exception:
         res.harness_error = 'exception in harness:\n' + traceback.format_exc()
     finally:
+        for mon in (mons if 'mons' in locals() else ()):
+            if hasattr(mon, 'detach'):
+                try:
+                    mon.detach()
+                except Exception:
+                    pass
         if w is not None:
             if keep_world:
                 res.world = w
@@ -135,6 +141,8 @@ def default_judge(fam, case, cfg, w, res):
     crash = case.get('crash')
     expected = progmod.run_ref(case['prog'], fam, cfg)
     res.info['expected'] = expected
+    res.info['expected_env'] = expected.pop('_env', None)
+    res.info['encode'] = getattr(fam, 'encode', lambda v: v)
     if not crash:
         if w.outcome == 'error':
             errs = describe_errors(w)
@@ -146,6 +154,12 @@ def default_judge(fam, case, cfg, w, res):
                 res.violations.append((kind, json.dumps(hr)[:600]))
     for p in w.parties:
         if p.result is None:
+            # unfinished party (hang / crash of a peer): whatever it did open must still be right
+            ctx = p.obs.get('ctx')
+            if ctx is not None and ctx.log and hasattr(fam, 'compare_partial'):
+                bad = fam.compare_partial(expected, ctx.log, p.pid, cfg.m)
+                if bad:
+                    res.violations.append(('wrong-value', f'party {p.pid} (unfinished): ' + '; '.join(bad)[:400]))
             continue
         bad = fam.compare(expected, p.result, p.pid, cfg.m)
         if bad:
